@@ -50,6 +50,7 @@ pub fn run(out: &mut Out, seed: u64, tier: &str) {
             (vec!["in.xyz", "-f", "uff"], "in.xyz"), (vec!["in.xyz", "-f", "MMFF94"], "in.xyz"), (vec!["in.xyz", "--forcefield", ""], "in.xyz"),
             (vec!["in.txt"], "in.txt"), (vec!["in"], "in"), (vec!["in.xyz.bak", "-f", "RB"], "in.xyz.bak"),
             (vec!["sub/in.xyz"], "sub/in.xyz"), (vec!["sub/deeper/in.xyz", "-f", "RB"], "sub/deeper/in.xyz"), (vec!["--forcefield=UFF", "./in.xyz"], "./in.xyz"),
+            (vec!["in.XYZ"], "in.XYZ"), (vec!["in.Xyz", "-f", "RB"], "in.Xyz"), (vec![".xyz"], ".xyz"), (vec!["sub/.xyz", "-f", "RB"], "sub/.xyz"), (vec!["inxyz"], "inxyz"),
             (vec!["missing.xyz"], "in.xyz"), (vec![], "in.xyz"), (vec!["in.xyz", "extra.xyz"], "in.xyz"), (vec!["in.xyz", "-f"], "in.xyz"),
         ];
         for (vi, (args, fname)) in variants.iter().enumerate() {
@@ -74,6 +75,18 @@ pub fn run(out: &mut Out, seed: u64, tier: &str) {
             let shown: Vec<String> = args.iter().map(|a| if a.is_empty() { "<empty>".to_string() } else { a.to_string() }).collect();
             let input = format!("cli {} {}", status, shown.join(" "));
             let replay = format!("optrs {:?} in a directory holding {} ({} atoms){}\n{}", args, fname, m.n(), if pre_existing { " and a previous opt.xyz" } else { "" }, text);
+            // the property's two refusal rules, read off the arguments alone: the input name must end in ".xyz" (as written, case and
+            // all) and the force-field name, when given, must be UFF or RB
+            let argv_s: Vec<String> = args.iter().map(|a| a.to_string()).collect();
+            let single_input = argv_s.iter().filter(|a| !a.starts_with('-') && !["UFF", "RB", "uff", "MMFF94", ""].contains(&a.as_str())).count() == 1 && argv_s.iter().any(|a| a == fname);
+            let ff_given: Option<String> = { let mut g = None; let mut it = argv_s.iter();
+                while let Some(a) = it.next() { if a == "-f" || a == "--forcefield" { g = it.next().cloned(); } else if let Some(v) = a.strip_prefix("--forcefield=") { g = Some(v.to_string()); } else if a.starts_with("-f") && a.len() > 2 { g = Some(a[2..].to_string()); } } g };
+            let ff_ok = match &ff_given { None => !argv_s.iter().any(|a| a == "-f" || a == "--forcefield"), Some(v) => v == "UFF" || v == "RB" };
+            if single_input && status == "ok" {
+                let must_refuse = !fname.ends_with(".xyz") || !ff_ok;
+                if must_refuse && r.ok { out.oracle_fail(&format!("a request that must be refused (input name {:?}, force field {:?}) exited with status 0", fname, ff_given), &replay); }
+                if !must_refuse && !r.ok { out.oracle_fail(&format!("a valid request (input name {:?} ends in .xyz, force field {:?}) was refused", fname, ff_given), &replay); }
+            }
             if !r.ok {
                 n_refused += 1;
                 out.case(&input, "refuse");
